@@ -34,7 +34,16 @@ func TestMain(m *testing.M) { stats.Main(m, "C06") }
 func membership(sa flows.SessionAssets, env envs.Environment, c *flows.Contact, when string, alt ...envs.Environment) (*harn.Failure, []string) {
 	active := c.Status() == flows.ContactStatusActive
 	state := []string{}
-	for _, g := range sa.Groups().All() {
+	// the groups as the asset source lists them (not the session assets' own, shared, list of them)
+	srcGroups, _ := sa.Source().Groups()
+	for _, sg := range srcGroups {
+		g := sa.Groups().Get(sg.UUID())
+		if g == nil {
+			continue // a query that does not parse: the group is dropped when the assets are loaded
+		}
+		if g.UsesQuery() != (sg.Query() != "") || g.Name() != sg.Name() {
+			return harn.Failf("group-asset-intact", "%s: group %s is %q (query %q) in the asset source but %q (query %q) in the session assets", when, sg.UUID(), sg.Name(), sg.Query(), g.Name(), g.Query()), nil
+		}
 		in := c.Groups().FindByUUID(g.UUID()) != nil
 		if !g.UsesQuery() {
 			if !active && in {
